@@ -63,7 +63,7 @@ def placements(ctx: Ctx, key: str, out: Outcome):
         ia, ib = ids_per_file[pa], ids_per_file[pb]
         if not ia or not ib:
             continue
-        n = ctx.pick(1, 8)
+        n = ctx.pick(1, 4)
         for _ in range(n):
             a = rng.choice(ia)       # occurrence to overwrite (in file pa)
             b = rng.choice(ib)       # id to duplicate (lives in file pb)
@@ -104,6 +104,37 @@ def placements(ctx: Ctx, key: str, out: Outcome):
                     res["save_both"] = "Corrupt"
             except Exception as e:  # noqa: BLE001
                 res["load_override"] = type(e).__name__
+            # 3. the duplicate appears only AFTER a normal load (no load-time override): save needs BOTH overrides,
+            #    so the backup flag alone must not be enough
+            #    (only for placements across files: inside one file the index refuses the second carrier the moment
+            #    it is indexed - C04's creation theorems - so such a state is not reachable through the API)
+            pa.write_text(orig, encoding="utf-8")
+            try:
+                if same_file:
+                    raise LookupError("not applicable")
+                m3 = capellambse.MelodyModel(str(base), **kw)
+                ea = m3._loader[a]
+                ea.set("id", b)
+                try:
+                    m3._loader.idcache_rebuild()
+                    res["postload_rebuild"] = "accepted"
+                except core.CorruptModelError:
+                    res["postload_rebuild"] = "Corrupt"
+                for flag, name in ((False, "postload_save"), (True, "postload_save_backup_only")):
+                    try:
+                        m3.save(dry_run=True, **({"i_have_a_recent_backup": True} if flag else {}))
+                        res[name] = "accepted"
+                    except core.CorruptModelError:
+                        res[name] = "Corrupt"
+            except LookupError:
+                pass
+            except Exception as e:  # noqa: BLE001
+                res["postload"] = type(e).__name__
+            pa.write_text(orig.replace(f'id="{a}"', f'id="{b}"', 1), encoding="utf-8")
+            for name in ("postload_save", "postload_save_backup_only"):
+                if res.get(name) == "accepted":
+                    out.find(f"save-accepts-duplicate-after-load|{kind}|{name}", f"{key}: {b} duplicated in memory after a normal load ({kind}) but {name} -> accepted",
+                             {"kind": "dup", "model": key, "placement": kind, "file_a": pa.name, "id_a": a, "file_b": pb.name, "id_b": b})
             out.case(("dup", key, kind, tuple(sorted(res.items()))), {"model": key, "placement": kind, "dup_id": b, "result": res})
             out.hit(f"dup.{kind}.load={res.get('load')}")
             # monitor: the statement
@@ -199,7 +230,7 @@ def run(ctx: Ctx) -> Outcome:
     # (b)
     w = {"create": 5, "create_clash": 3, "create_nested": 6, "delitem": 1, "insert": 1, "setitem": 0, "append": 1,
          "remove": 1, "setattr": 1, "clear": 0, "delete_referenced": 1}
-    plan = [("write", 2, 30), ("t52", 1, 15)] if not ctx.thorough else [("write", 5, 80), ("empty52", 3, 50), ("t50", 2, 60), ("t52", 3, 80), ("t60", 2, 60), ("libproj", 2, 50)]
+    plan = [("write", 2, 30), ("t52", 1, 15)] if not ctx.thorough else [("write", 4, 60), ("write+frag", 3, 40), ("empty52", 2, 40), ("t50", 1, 40), ("t52", 2, 40), ("t60", 1, 40), ("libproj", 2, 40)]
     for key, nh, ns in plan:
         for h in range(nh):
             mon = CreateMonitor(out, ctx)
